@@ -53,8 +53,10 @@ func nearbyInj(r *vh.Rng, c *Case) Inj {
 		return Inj{Kind: "invalidate", Target: r.Intn(c.Slots)}
 	case k < 82:
 		return Inj{Kind: "stop", Target: r.Intn(len(c.RRs))}
-	case k < 94:
+	case k < 90:
 		return Inj{Kind: "purge", Target: r.Intn(len(c.RRs))}
+	case k < 95:
+		return Inj{Kind: "outside", Target: r.Intn(c.Slots)}
 	default:
 		return Inj{Kind: "flush", Target: r.Intn(len(c.RRs))}
 	}
